@@ -2,19 +2,20 @@
 import ast, contextlib, io, json, os, sys
 from harness.lib import tr as trlib
 from harness.lib.common import REPO
-from harness.translators import perm_table
+from harness.translators import perm_table, eval_shape
 
 META = dict(
     id='C19',
-    model_run='PG.Model.Perm.run',
-    model_targets=['Model/Perm.vo'],
+    model_run='PG.Model.PermRun.run',
+    model_targets=['Model/Perm.vo', 'Model/PermRun.vo'],
     instance_obligations=['generated_table_covers (Proofs/PermInstance.v: covers Gen.PermTable.tbl = true, vm_compute, re-checked on the table regenerated from the current source)',
-                          'generated_eval_perm_* (Proofs/PermInstance.v: four lemmas about Gen.PermTable.eval_perm as regenerated from execution.py)'],
+                          'generated_eval_perm_* (Proofs/PermInstance.v: four lemmas about Gen.PermTable.eval_perm as regenerated from execution.py)',
+                          'generated_shape_ok (Proofs/EvalInstance.v: shape_ok Gen.EvalShape.shape = true — the plan of evaluate() regenerated from execution.py pops only Expr/Assign and re-uses the evaluated result for complex targets)'],
     technique='Coq proof over a rose-tree AST model (induction on the tree) + table regenerated from parsing.py by a fail-closed ast translator + differential correspondence and sentinel oracle',
     design_ref='DESIGN.md §5 C19',
     level_text=('Theorems (any program, any nesting depth, any of the 256 permission sets): the validator rejects iff some node needs a withheld flag; '
                 'the table regenerated from the current parsing.py gates every construct the property names; a rejected program never reaches the interpreter; '
-                'nested permission scopes never widen. Tie: translator (fail-closed) regenerates Gen/PermTable.v each run and the proofs are re-checked; '
+                'nested permission scopes never widen; evaluate() performs every side effect of the program exactly once, binds the same names and returns the value of the last expression/assignment (on the plan regenerated from execution.py). Tie: translator (fail-closed) regenerates Gen/PermTable.v each run and the proofs are re-checked; '
                 'the model is run against parsing.parse on every node class x withheld flag and on random nested programs; a direct oracle (sentinel proves nothing ran; accepted programs equal plain exec) runs on every case.'),
     level_note=('Trusted: Coq kernel; translator harness/translators/perm_table.py; extraction (ExtrOcamlBasic) cross-checked against vm_compute; Python ast.parse for turning source text into the tree. '
                 'Modelled, not verified: Python exec/eval semantics (a Section variable); result/stdout/variables equality with plain execution is decided by the oracle only (partial).'),
@@ -234,7 +235,7 @@ REQUIRED = {'Assign': 'ASSIGN', 'AugAssign': 'ASSIGN', 'AnnAssign': 'ASSIGN', 'N
             'Assert': 'EXCEPTION', 'ClassDef': 'CLASS_DEFINITION', 'FunctionDef': 'FUNCTION_DEFINITION', 'AsyncFunctionDef': 'FUNCTION_DEFINITION',
             'Lambda': 'FUNCTION_DEFINITION', 'Import': 'IMPORT', 'ImportFrom': 'IMPORT'}
 
-GENERATED = {'Gen/PermTable.v': perm_table.translate}
+GENERATED = {'Gen/PermTable.v': perm_table.translate, 'Gen/EvalShape.v': eval_shape.translate}
 
 def py():
   from pyglove.core.coding import parsing, permissions, execution, errors
@@ -410,6 +411,84 @@ def impl_evaluate_accepts(code, arg_bits, scopes, flag_order):
     except BaseException:
       return True
 
+# ------------------------------------------------------------------------------------------------
+# event traces of evaluate(): programs of traced statements, compared with Model/PermRun.run case 3 and with plain exec
+class _Trace:
+  def __init__(self):
+    self.log = []
+  def E(self, e):
+    self.log.append([0, e]); return e
+  def S(self, i):
+    self.log.append([1, i]); return i
+  def __setitem__(self, t, v):
+    self.log.append([3, t, v])
+
+def trace_source(stmts):
+  """stmts: [(kind, value|None, [(0,name)|(1,complex)], id)] -> Python source"""
+  lines = []
+  for kind, val, targets, sid in stmts:
+    if kind == 0:
+      lines.append('T_.E(%d)' % val)
+    elif kind == 1:
+      lines.append(' = '.join(('v%d' % t[1]) if t[0] == 0 else ('T_[%d]' % t[1]) for t in targets) + ' = T_.E(%d)' % val)
+    else:
+      lines.append('for i_ in (0,):\n  T_.S(%d)' % sid)
+  return '\n'.join(lines)
+
+def _names_of(stmts):
+  seq = [t[1] for k, v, ts, i in stmts if k == 1 for t in ts if t[0] == 0]
+  return [n for j, n in enumerate(seq) if n not in seq[j + 1:]]     # Coq's nodup keeps the last occurrence
+
+def trace_case_tr(stmts):
+  return [3, [[k, trlib.opt(v), [list(t) for t in ts], i] for k, v, ts, i in stmts]]
+
+def impl_trace(stmts, plain=False):
+  parsing, permissions, execution, errors = py()
+  T = _Trace()
+  src = trace_source(stmts)
+  g = dict(T_=T)
+  try:
+    if plain:
+      exec(compile(src, '', 'exec'), g); out = g
+    else:
+      out = execution.evaluate(src, global_vars=g, permission=permissions.CodePermission.ALL, outputs_intermediate=True)
+  except BaseException as e:   # noqa
+    return [3, [[9, 9]], [], trlib.opt(None)], T.log
+  binds = [[n, trlib.opt(out.get('v%d' % n))] for n in _names_of(stmts)]
+  # for a last statement that is not popped, evaluate() documents __result__ as 'the last global' — not part of the model
+  res = out.get('__result__') if (not plain and stmts[-1][0] in (0, 1)) else None
+  return [3, T.log, binds, trlib.opt(res if isinstance(res, int) and not isinstance(res, bool) else None)], T.log
+
+def gen_trace_program(rng):
+  n = rng.randint(1, 5)
+  stmts = []
+  eid = 1
+  for j in range(n):
+    k = rng.choice([0, 1, 1, 1, 2])
+    if k == 0:
+      stmts.append((0, eid, [], j + 1))
+    elif k == 1:
+      ts = [(rng.choice([0, 0, 1]), rng.randint(1, 4)) for _ in range(rng.randint(1, 3))]
+      stmts.append((1, eid, ts, j + 1))
+    else:
+      stmts.append((2, None, [], j + 1))
+    eid += 1
+  return stmts
+
+def all_trace_programs():
+  """Every last statement shape behind every one-statement prefix shape (small scope, exhaustive)."""
+  shapes = [(0, [])] + [(1, ts) for ts in ([(0, 1)], [(1, 1)], [(0, 1), (0, 2)], [(0, 1), (1, 2)], [(1, 1), (0, 2)], [(1, 1), (1, 2)],
+                                           [(0, 1), (0, 1)], [(0, 2), (1, 1), (0, 2)])] + [(2, [])]
+  progs = []
+  for lk, lts in shapes:
+    for pk, pts in [(None, None)] + shapes:
+      st = []
+      if pk is not None:
+        st.append((pk, 1 if pk != 2 else None, pts, 1))
+      st.append((lk, 2 if lk != 2 else None, lts, 2))
+      progs.append(st)
+  return progs
+
 def parseable(snips):
   out = []
   for s in snips:
@@ -421,6 +500,7 @@ def parseable(snips):
 
 def run(ctx):
   info = ctx.regen('Gen/PermTable.v', perm_table.translate)
+  ctx.regen('Gen/EvalShape.v', eval_shape.translate)
   ctx.build()
   if info is None:
     kinds = perm_table.node_kinds(); flag_order = FLAG_NAMES
@@ -516,6 +596,18 @@ def run(ctx):
     descrs.append(dict(evaluate=src, arg_bits=arg, scopes=scs))
     ctx.count(('eval', src, arg, tuple(scs)), nontrivial=bool(needed_flags(ast.parse(src))) and (arg is not None or bool(scs)), kind='evaluate')
     ctx.hist('evaluate_shape', 'arg=%s scopes=%d' % ('none' if arg is None else 'given', len(scs)))
+  # (G) event traces of evaluate(): exhaustive small scope + random programs, against the model and against plain exec
+  tprogs = all_trace_programs() + [gen_trace_program(rng) for _ in range(ctx.scale(400, 6000))]
+  for st in tprogs:
+    out, log = impl_trace(st)
+    impl_outs.append(out); trs.append(trace_case_tr(st)); descrs.append(dict(trace=trace_source(st)))
+    pout, plog = impl_trace(st, plain=True)
+    last = st[-1]
+    ctx.count(('trace', trace_source(st)), nontrivial=any(t[0] == 1 for t in last[2]) or len(st) > 1, kind='evaluate-trace')
+    ctx.hist('trace_last_kind', ['Expr', 'Assign-names-only' if all(t[0] == 0 for t in last[2]) else 'Assign-with-complex-target', 'other'][last[0]] if last[0] != 1 else ('Assign-names-only' if all(t[0] == 0 for t in last[2]) else 'Assign-with-complex-target'))
+    if log != plog or out[2] != pout[2]:
+      ctx.hit('C19/granted-program-differs/effects-trace', 'evaluate() performs %s, plain execution %s, for:\n%s' % (log, plog, trace_source(st)),
+              dict(code='T_ = None\n', trace_program=[list(x) for x in st], arg_bits=None, scopes=[], flag_order=flag_order))
   model_outs = ctx.model_run(trs)
   lookup = {id(t): d for t, d in zip(trs, descrs)}
   bad = ctx.compare('Perm.run vs parsing.parse / permissions.permission', trs, impl_outs, model_outs, describe=lambda c: lookup.get(id(c)))
@@ -602,6 +694,10 @@ def run_oracle_reject_only(ctx, code, bits, flag_order):
 
 def replay(ctx, rp):
   c = rp['case']
+  if c.get('trace_program'):
+    st = [(k, v, [tuple(t) for t in ts], i) for k, v, ts, i in c['trace_program']]
+    out, log = impl_trace(st); pout, plog = impl_trace(st, plain=True)
+    return log == plog and out[2] == pout[2]
   hits = oracle(c['code'], c['arg_bits'], c['scopes'], c['flag_order'])
   for h in hits:
     print('  still fails:', h)
